@@ -77,6 +77,43 @@ def problems():
             if check_ctx and any(v != 1 for v in seen):
                 out.append(f"the generator body observed state {set(seen)} instead of the state current where the stream was created (1)")
             seen.clear()
+        # completion: the scopes a stream was created in complete when the stream is exhausted / closed, not before,
+        # innermost first; the stream ends normally
+        for depth in (1, 2, 3):
+            for how in ("exhauste", "close"):
+                order = []
+
+                def mk(name):
+                    return lambda metrics: order.append(name)
+                names = [f"level{k}" for k in range(depth)]
+                stack = []
+                for n in names:                          # each made and entered inside the previous one
+                    sc = ctx.scope(n, S(v=1), completion=mk(n))
+                    await sc.__aenter__()
+                    stack.append(sc)
+                stream = ctx.stream(source, [1, 2, 3], False)
+                for sc in reversed(stack):
+                    await sc.__aexit__(None, None, None)
+                for _ in range(3):
+                    await asyncio.sleep(0)
+                if order:
+                    out.append(f"scopes {order} completed before the stream created inside them was consumed (depth {depth})")
+                try:
+                    if how == "exhauste":
+                        got = [x async for x in stream]
+                        if got != [1, 2, 3]:
+                            out.append(f"nested creator scopes (depth {depth}): consumer received {got}")
+                    else:
+                        async for x in stream:
+                            break
+                        await stream.aclose()
+                except Exception as e:  # noqa
+                    out.append(f"stream created {depth} scope(s) deep, consumed after they were left: ended with {e!r}")
+                for _ in range(3):
+                    await asyncio.sleep(0)
+                if order != list(reversed(names)):
+                    out.append(f"after the stream was {how}d the enclosing scopes completed as {order}, expected {list(reversed(names))}")
+                seen.clear()
         # consumed in another task / outside any scope
         async with ctx.scope("creator", S(v=1)):
             stream = ctx.stream(source, [1, 2], False)
